@@ -17,7 +17,7 @@ def main():
     p = prop.lower()
     patch = os.path.join(wt, "seed_%s_%s.diff" % (p, k))
     demo = os.path.join(wt, "demo_%s_%s.py" % (p, k))
-    sid = "%s-%s" % (prop, k)
+    sid = "%s-%d" % (prop, int(k) + int(os.environ.get("SEED_OFFSET", "0")))  # later rounds: SEED_OFFSET=3 stores change k as <prop>-(k+3)
     meta = {"id": sid, "property": prop, "needs": needs, "ran": []}
     sh("git checkout -- .", wt)
     c0, o0 = sh("/venv/bin/python %s" % demo, wt, {"PYTHONPATH": wt})
